@@ -1344,3 +1344,230 @@ Proof.
   { intros t' E. injection E as E. subst t'. exact Ht. }
   cbn [fld_of_opt] in HI, HS. rewrite HI. cbn [bind]. rewrite HS. reflexivity.
 Qed.
+
+(* ------------------------------------------------------------------ *)
+(* what one entry does to the parser state                             *)
+(* ------------------------------------------------------------------ *)
+
+(* [lines] read from a state whose running pair belongs to another name leave the pair (n, mid);
+   mid is a fixed point of the flush passes; the final interpolate_defaults pass turns it into fin *)
+Definition entry_spec (ww edd : bool) (n : str) (lines : list (bool * str)) (mid fin : param) : Prop :=
+  (forall sdoc done rets cur, cur_ok cur n ->
+      fold_outcome (step ww edd) lines (mkRS sdoc done rets cur)
+      = Ok (mkRS sdoc (flushed done cur) rets (Some n, mid)))
+  /\ (exists mi, interpolate_defaults mid default_announces false edd = Ok mi
+                 /\ set_name_and_type (Some n) mi false ww = Ok (n, mid))
+  /\ interpolate_defaults mid default_announces false edd = Ok fin.
+
+Definition nl1 : str := [nl].
+Definition nl2 : str := [nl; nl].
+
+(* ---- no default ---- *)
+
+Lemma entry_nodefault_doc_typ : forall ww edd n d t,
+    good_name n -> prose_facts d -> typ_facts t ->
+    entry_spec ww edd n [dline n d nl1; tline n t nl2]
+               (mkParam (Has d) (Has t) None) (mkParam (Has d) (Has t) None).
+Proof.
+  intros ww edd n d t Hn Hd Ht.
+  destruct (IS_nodefault ww edd n (Some d) (Some t) (proj1 (proj2 Hn))) as [HI HS].
+  { intros d' E. injection E as E. subst d'. exact Hd. }
+  { intros t' E. injection E as E. subst t'. exact Ht. }
+  cbn [fld_of_opt] in HI, HS.
+  split; [|split].
+  - intros sdoc done rets cur Hcur. cbn [fold_outcome].
+    rewrite (run_doc_line_nodefault ww edd n d nl1 sdoc done rets cur Hn Hcur Hd eq_refl). cbn [bind].
+    rewrite (run_typ_line_nodefault_second ww edd n d t nl2 sdoc _ rets Hn Hd Ht eq_refl). reflexivity.
+  - eexists. split; [exact HI|exact HS].
+  - exact HI.
+Qed.
+
+Lemma entry_nodefault_doc : forall ww edd n d,
+    good_name n -> prose_facts d ->
+    entry_spec ww edd n [dline n d nl2] (mkParam (Has d) Missing None) (mkParam (Has d) Missing None).
+Proof.
+  intros ww edd n d Hn Hd.
+  destruct (IS_nodefault ww edd n (Some d) None (proj1 (proj2 Hn))) as [HI HS].
+  { intros d' E. injection E as E. subst d'. exact Hd. }
+  { intros t' E. discriminate. }
+  cbn [fld_of_opt] in HI, HS.
+  split; [|split].
+  - intros sdoc done rets cur Hcur. cbn [fold_outcome].
+    rewrite (run_doc_line_nodefault ww edd n d nl2 sdoc done rets cur Hn Hcur Hd eq_refl). reflexivity.
+  - eexists. split; [exact HI|exact HS].
+  - exact HI.
+Qed.
+
+Lemma entry_nodefault_typ : forall ww edd n t,
+    good_name n -> typ_facts t ->
+    entry_spec ww edd n [tline n t nl2] (mkParam Missing (Has t) None) (mkParam Missing (Has t) None).
+Proof.
+  intros ww edd n t Hn Ht.
+  destruct (IS_nodefault ww edd n None (Some t) (proj1 (proj2 Hn))) as [HI HS].
+  { intros d' E. discriminate. }
+  { intros t' E. injection E as E. subst t'. exact Ht. }
+  cbn [fld_of_opt] in HI, HS.
+  split; [|split].
+  - intros sdoc done rets cur Hcur. cbn [fold_outcome].
+    rewrite (run_typ_line_nodefault_first ww edd n t nl2 sdoc done rets cur Hn Hcur Ht eq_refl). reflexivity.
+  - eexists. split; [exact HI|exact HS].
+  - exact HI.
+Qed.
+
+(* ---- with a default ---- *)
+
+Lemma fld_eqb_eq : forall a b, fld_eqb a b = true -> a = b.
+Proof.
+  intros [| |x] [| |y] H; try discriminate; try reflexivity.
+  cbn [fld_eqb] in H. apply str_eqb_eq in H. subst. reflexivity.
+Qed.
+
+Lemma settled_inv : forall T w, settled T w = true -> infer_res T w = Ok (T, w).
+Proof.
+  intros T w H. unfold settled in H. destruct (infer_res T w) as [[T' w']|e]; [|discriminate].
+  apply andb_true_iff in H. destruct H as [H1 H2].
+  apply fld_eqb_eq in H1. apply pyval_eqb_eq in H2. subst. reflexivity.
+Qed.
+
+Lemma type_name_fine : forall v, typ_fine (Has (type_name v)).
+Proof. intros [|[|]|z|r|s]; reflexivity. Qed.
+
+(* the type inferred when none is declared is a plain type name *)
+Lemma infer_res_missing_fine : forall w t' w', infer_res Missing w = Ok (t', w') -> typ_fine t'.
+Proof.
+  intros w t' w' H. unfold infer_res, infer_default in H.
+  cbn [p_default p_typ p_doc andb fld_is_none fget] in H.
+  change (needs_quoting None) with (Ok false : outcome bool) in H. cbn [bind orb] in H.
+  set (d1 := if in_none_types w then VStr NoneStr else w) in *.
+  set (d2 := if is_str_val d1 then unquote_val d1 else d1) in *.
+  destruct (negb (pyval_eqb d2 (VStr NoneStr))) eqn:En; cbn [andb] in H.
+  - destruct (code_quoted_val d2).
+    + destruct (contains [ch 91] (type_name d2)); cbn [p_default p_typ] in H; injection H as H1 H2; subst;
+        [apply type_name_fine|exact I].
+    + cbn [p_default p_typ] in H. injection H as H1 H2. subst. apply type_name_fine.
+  - cbn [p_default p_typ] in H. injection H as H1 H2. subst. exact I.
+Qed.
+
+Lemma coerce_ok_not_none : forall t s w, coerce_default t s = Ok w -> w <> VNone.
+Proof. intros t s w H E. subst w. exact (coerce_default_not_none t s H). Qed.
+
+Section DefaultEntry.
+  Variables (ww edd : bool) (n d s : str) (v : pyval) (typ : option str).
+  Hypothesis Hn : good_name n.
+  Hypothesis Hd : prose_facts d.
+  Hypothesis Hdtok : no_rest_token d = true.
+  Hypothesis Hg : guard_C17 ADefaultsTo d v typ = true.
+  Hypothesis Hs : shown_value v typ = Ok s.
+  Hypothesis Hclean : value_text_clean s = true.
+
+  Let Dw := sentence d s.
+  Let Dk := if edd then Dw else d.
+
+  Lemma Dk_fine : doc_fine Dk.
+  Proof.
+    unfold Dk. destruct edd; [|apply Hd].
+    apply (sentence_fine d s (proj1 Hd) Hclean Hdtok).
+  Qed.
+
+  Lemma extract_Dw : forall t' w, coerce_default t' s = Ok w ->
+      extract_default Dw true default_announces t' edd = Ok (Dk, Some w).
+  Proof.
+    intros t' w Hco. destruct (sentence_extract d v typ s Hg Hs t' w Hco) as [E1 E2].
+    unfold Dk, Dw. destruct edd; assumption.
+  Qed.
+
+  (* first line: the sentence is read without a declared type *)
+  Lemma run_doc_line_default : forall v1 typ1 w1 ws sdoc done rets cur,
+      coerce_default None s = Ok v1 -> infer_res Missing (unquote_val v1) = Ok (typ1, w1) ->
+      cur_ok cur n -> forallb isspace ws = true ->
+      step ww edd (mkRS sdoc done rets cur) (dline n Dw ws)
+      = Ok (mkRS sdoc (flushed done cur) rets (Some n, mkParam (Has Dk) typ1 (Some w1))).
+  Proof.
+    intros v1 typ1 w1 ws sdoc done rets cur Hv1 Hr1 Hcur Hws. unfold step, dline.
+    destruct Hn as [Hc [Hp _]].
+    assert (HDw : doc_fine Dw /\ no_rest_token Dw = true) by apply (sentence_fine d s (proj1 Hd) Hclean Hdtok).
+    rewrite step_param_line; [|exact Hc|apply doc_fine_edge; apply HDw|exact Hws].
+    rewrite (flush_for_other n sdoc done rets cur Hcur). cbn [bind fst snd empty_param p_typ p_default].
+    rewrite (I_extract Dw Missing None default_announces edd Dk (Some v1) (extract_Dw None v1 Hv1)).
+    assert (Em : (match Some v1 with None | Some VNone => None | Some v0 => Some (unquote_val v0) end)
+                 = Some (unquote_val v1)).
+    { destruct v1; try reflexivity. exfalso. exact (coerce_default_not_none None s Hv1). }
+    rewrite Em. cbn [bind].
+    rewrite (S_plain n _ (mkParam (Has Dk) typ1 (Some w1)) ww Hp).
+    - reflexivity.
+    - cbn [p_default]. apply infer_default_of_res. exact Hr1.
+    - cbn [p_typ]. apply (infer_res_missing_fine _ _ _ Hr1).
+    - cbn [p_doc]. apply Dk_fine.
+  Qed.
+
+  (* no type line: the running pair is already settled *)
+  Lemma entry_default_notyp : forall v1 w1,
+      typ = None ->
+      coerce_default None s = Ok v1 -> infer_res Missing (unquote_val v1) = Ok (Missing, w1) ->
+      (edd = false -> settled Missing w1 = true) ->
+      entry_spec ww edd n [dline n Dw nl2]
+                 (mkParam (Has Dk) Missing (Some w1))
+                 (mkParam (Has Dk) Missing (Some (if edd then unquote_val v1 else w1))).
+  Proof.
+    intros v1 w1 Et Hv1 Hr1 Hset. pose proof Hn as [Hc [Hp _]].
+    assert (HI : interpolate_defaults (mkParam (Has Dk) Missing (Some w1)) default_announces false edd
+                 = Ok (mkParam (Has Dk) Missing (Some (if edd then unquote_val v1 else w1)))).
+    { unfold Dk. destruct edd.
+      - rewrite (I_extract Dw Missing (Some w1) default_announces true Dw (Some v1)).
+        + destruct v1; try reflexivity. exfalso. exact (coerce_default_not_none None s Hv1).
+        + destruct (sentence_extract d v typ s Hg Hs None v1 Hv1) as [E1 _]. exact E1.
+      - apply I_noannounce. apply Hd. }
+    split; [|split].
+    - intros sdoc done rets cur Hcur. cbn [fold_outcome].
+      rewrite (run_doc_line_default v1 Missing w1 nl2 sdoc done rets cur Hv1 Hr1 Hcur eq_refl). reflexivity.
+    - eexists. split; [exact HI|].
+      apply S_plain; [exact Hp| |exact I|apply Dk_fine].
+      cbn [p_default]. apply infer_default_of_res.
+      destruct edd; [exact Hr1|]. apply settled_inv. apply Hset. reflexivity.
+    - exact HI.
+  Qed.
+
+  (* a type line follows *)
+  Lemma entry_default_typ : forall t v1 typ1 w1 w2 vfin,
+      typ = Some t -> typ_facts t ->
+      coerce_default None s = Ok v1 -> infer_res Missing (unquote_val v1) = Ok (typ1, w1) ->
+      (if edd
+       then exists v2, coerce_default (Some t) s = Ok v2 /\ infer_res (Has t) (unquote_val v2) = Ok (Has t, w2)
+                       /\ vfin = unquote_val v2
+       else infer_res (Has t) w1 = Ok (Has t, w2) /\ settled (Has t) w2 = true /\ vfin = w2) ->
+      entry_spec ww edd n [dline n Dw nl1; tline n t nl2]
+                 (mkParam (Has Dk) (Has t) (Some w2)) (mkParam (Has Dk) (Has t) (Some vfin)).
+  Proof.
+    intros t v1 typ1 w1 w2 vfin Et Ht Hv1 Hr1 Hj. pose proof Hn as [Hc [Hp _]].
+    pose proof Ht as [Hbt [Hne [Hstar Hopt]]].
+    (* the interpolate pass on a dict that has the type, whatever default it holds *)
+    assert (HI : forall w0, interpolate_defaults (mkParam (Has Dk) (Has t) (Some w0)) default_announces false edd
+                 = Ok (mkParam (Has Dk) (Has t) (Some (if edd then vfin else w0)))).
+    { intros w0. unfold Dk. destruct edd.
+      - destruct Hj as [v2 [Hv2 [_ Evf]]]. subst vfin.
+        rewrite (I_extract Dw (Has t) (Some w0) default_announces true Dw (Some v2)).
+        + destruct v2; try reflexivity. exfalso. exact (coerce_default_not_none (Some t) s Hv2).
+        + destruct (sentence_extract d v typ s Hg Hs (Some t) v2 Hv2) as [E1 _]. exact E1.
+      - apply I_noannounce. apply Hd. }
+    (* the _set_name_and_type pass after it *)
+    assert (HS : forall w0, (if edd then w0 = vfin else w0 = w1 \/ w0 = w2) ->
+                 set_name_and_type (Some n) (mkParam (Has Dk) (Has t) (Some w0)) false ww
+                 = Ok (n, mkParam (Has Dk) (Has t) (Some w2))).
+    { intros w0 Hw0. apply S_plain; [exact Hp| |exact Hopt|apply Dk_fine].
+      cbn [p_default]. apply infer_default_of_res. destruct edd.
+      - destruct Hj as [v2 [_ [Hr2 Evf]]]. subst w0 vfin. exact Hr2.
+      - destruct Hj as [Hr2 [Hset _]]. destruct Hw0 as [E|E]; subst w0; [exact Hr2|].
+        apply settled_inv. exact Hset. }
+    split; [|split].
+    - intros sdoc done rets cur Hcur. cbn [fold_outcome].
+      rewrite (run_doc_line_default v1 typ1 w1 nl1 sdoc done rets cur Hv1 Hr1 Hcur eq_refl). cbn [bind].
+      unfold step, tline.
+      rewrite step_type_line; [|exact Hc|exact Hbt|exact Hne|exact Hstar|reflexivity].
+      rewrite flush_for_same. cbn [bind fst snd p_doc p_default].
+      rewrite (HI w1). cbn [bind]. rewrite HS; [reflexivity|].
+      destruct edd; [reflexivity|left; reflexivity].
+    - eexists. split; [apply HI|]. apply HS. destruct edd; [reflexivity|right; reflexivity].
+    - rewrite (HI w2). f_equal. f_equal. f_equal. destruct edd; [reflexivity|].
+      destruct Hj as [_ [_ E]]. symmetry. exact E.
+  Qed.
+End DefaultEntry.
